@@ -778,7 +778,24 @@ def merge_rules(run, r_bases, r_ids, ast):
                             flags.add(astq.strip(e["c"][0])["ref"]["did"])
                 if any(lp.get("cond") is not None and any(y.get("k") == "DeclRefExpr" and y["ref"]["did"] in flags for y in astq.walk(lp["cond"])) for lp in loops):
                     okc = True
+            overwritten = None
             if closure and not okc:
+                # the flag of the fixpoint loop is ASSIGNED a per-class verdict (not set on every insertion, not accumulated): whether
+                # another pass runs is then decided by the last class visited alone
+                for n in closure:
+                    loops = _enclosing(parent_c, n, ("ForStmt", "WhileStmt", "DoStmt"))
+                    fl = {y["ref"]["did"] for lp in loops if lp.get("cond") is not None for y in astq.walk(lp["cond"]) if y.get("k") == "DeclRefExpr" and y["ref"].get("storage") == "local"}
+                    cls_loops = _enclosing(parent_c, n, ("CXXForRangeStmt",))
+                    for cl in cls_loops:
+                        for x in astq.walk(cl["body"]):
+                            if x.get("k") == "BinaryOperator" and x.get("op") == "=" and (astq.strip(x["c"][0]) or {}).get("k") == "DeclRefExpr" and astq.strip(x["c"][0])["ref"]["did"] in fl:
+                                rhs = astq.strip(x["c"][1])
+                                if not (rhs.get("k") == "CXXBoolLiteralExpr" and rhs.get("v")) and not _refs(rhs, astq.strip(x["c"][0])["ref"]["did"]):
+                                    overwritten = x
+            if overwritten is not None:
+                run.instance(r_bases, "%s: the collected base lists are closed transitively (a class registered with its direct base only still knows all its bases)" % short(f), (f["file"], overwritten["l"]), ok=False)
+                run.violation(r_bases, "compiler::augment_classes|closure-flag-overwritten", "the 'something changed' flag of the closure loop is assigned `%s` for each class, not set on every insertion nor accumulated: whether another pass runs is decided by the LAST class visited alone, so the closure is incomplete for some orders of registration" % astq.text(overwritten["c"][1])[:70], (f["file"], overwritten["l"]))
+            elif closure and not okc:
                 run.broken.append("%s: a step extends transitive_bases from the bases' own lists, but not in the 'repeat until nothing changes' form this rule recognises" % short(f))
             else:
                 run.instance(r_bases, "%s: the collected base lists are closed transitively (a class registered with its direct base only still knows all its bases)" % short(f), (f["file"], f["line"]), ok=okc)
@@ -1464,6 +1481,19 @@ def list_rules(run, r_link, r_reset, r_pair, r_idem, ast):
             run.instance(r_pair, "%s: the removal in %s is unconditional" % (T, short(f)[:70]), (f["file"], r["node"]["l"]), ok=not bad)
             for t in bad:
                 run.violation(r_pair, "static_list|conditional-remove|%s" % T, "the destructor's removal from `%s` is skipped depending on `%s`" % (lname, t), (f["file"], r["node"]["l"]))
+        # ... and the registration in the constructor is unconditional as well (a definition is the exception: add_function's
+        # idempotence guard, judged by the idem rule): an object that decides not to enter the catalog because "one like it is
+        # already there" leaves the catalog without it when the other one goes away
+        if T != "definition_info":
+            for r in pushes:
+                f = r["fn"]
+                if "cfg" not in f:
+                    continue
+                bad = [astq.text(cn) if cn else "?" for cls, cn, blk in (_cdep_conds(f, r["node"]) or []) if cls not in ("trace",) and not (cls == "loop" and cn is None)]
+                # being inside a loop at all already makes the registration depend on the catalog's contents
+                run.instance(r_pair, "%s: the registration in %s is unconditional" % (T, short(f)[:70]), (f["file"], r["node"]["l"]), ok=not bad)
+                for t in bad[:1]:
+                    run.violation(r_pair, "static_list|conditional-registration|%s" % T, "the constructor's registration in `%s` depends on `%s`: a live registration object may be missing from the catalog" % (lname, t[:80]), (f["file"], r["node"]["l"]))
     idem_rules(run, r_idem, ast)
 
 
